@@ -28,7 +28,7 @@ EXPLANATION = ("Symbolic execution of the real parse_directive_text over symboli
                "symbolic directive declaration; obligations: partition (body == content lines[body_offset:]), offset placement w.r.t. the option block, style equivalence, "
                "argument law, option validation law, exception containment.")
 ASSUMPTIONS = [
-    "content lines are defined by str.splitlines (as the implementation and docutils do)",
+    "content lines are the source lines, i.e. the pieces between '\\n' characters (markdown-it has normalised CR/CRLF before); form feed, U+0085, U+2028 ... are ordinary characters of a line",
     "a closing '---' delimiter line consists of dashes and trailing spaces only (text after the closing dashes on the same line is outside the claim)",
     "when the first line is merged into the body (directive without arguments) body_offset is not judged here (the first body line is not a content line); see C04 known finding",
     "unknown option keys are reported together in one warning that names each of them (read as 'one warning each' = every unknown key is named in exactly one warning)",
@@ -105,9 +105,19 @@ def _is_blank(s):
     return len(st) == 0
 
 
+def src_lines(content):
+    """The source lines of a content string: split on '\\n' only; a final newline terminates the last line."""
+    if not len(content):
+        return []
+    lines = content.split("\n")
+    if len(lines[-1]) == 0:
+        lines = lines[:-1]
+    return list(lines)
+
+
 def spec_option_block(has_spec, content, eng):
     """(lines, k): content lines and the number of leading lines that belong to the option block."""
-    lines = content.splitlines() if len(content) else []
+    lines = src_lines(content)
     k = 0
     if has_spec and len(content):
         if T(_sw(content, "---")):
@@ -416,8 +426,8 @@ def families(tier, seed):
                         args=dict(n=n, alphabet=RAW, first="x", req=1), nontrivial="partition_nontrivial"))
         F.append(Family("raw-nospec/N%d" % n, make_raw, "contents of %d chars over %r, directive without option_spec" % (n, RAW),
                         args=dict(n=n, alphabet=RAW, first="", spec="none"), nontrivial="partition_nontrivial"))
-    F.append(Family("raw-breaks/N4", make_raw, "contents of 4 chars over '-:a\\n\\r\\x0b\\x0c\\x1c\\x85\\u2028' (all str.splitlines separators)",
-                    args=dict(n=4, alphabet="-:a\n\r\x0b\x0c\x1c\x85 ", first=""), nontrivial="partition_nontrivial", required=False))
+    F.append(Family("raw-breaks/N4", make_raw, "contents of 4 chars over '-:a\\n\\r\\x0b\\x0c\\x1c\\x85\\u2028' (all str.splitlines separators: only '\\n' may break a line)",
+                    args=dict(n=4, alphabet="-:a\n\r\x0b\x0c\x1c\x85 ", first=""), nontrivial="partition_nontrivial", required=True))
     for nl in ([3] if q else [3, 4, 5]):
         for tr in (True, False):
             F.append(Family("lines/L%d%s" % (nl, "+nl" if tr else ""), make_lines,
@@ -498,7 +508,7 @@ def replay(label, witness):
     except _Fail as f:
         cls = _classify(content, f.label)
         return ("C08/%s:%s" % (f.label, cls), "parse_directive_text(first_line=%r, content=%r) -> body=%r body_offset=%r; content lines=%r (%s)" % (
-            first, content, res.body, res.body_offset, content.splitlines(), f.detail))
+            first, content, res.body, res.body_offset, src_lines(content), f.detail))
     except core.PathAbort:
         return None
     return None
@@ -506,7 +516,7 @@ def replay(label, witness):
 
 def _classify(content, label):
     style = "dashes" if content.startswith("---") else "colon" if content.lstrip().startswith(":") else "plain"
-    tail = "trailing-blank" if content.splitlines() and not content.splitlines()[-1].strip() else "no-trailing-blank"
+    tail = "trailing-blank" if src_lines(content) and not src_lines(content)[-1].strip() else "no-trailing-blank"
     return "%s/%s" % (style, tail)
 
 
